@@ -259,6 +259,9 @@ func (env *Env) elab(x SExpr) Term {
 		}
 		return Term{S: fmt.Sprintf("(mkSlice (s.arr %s) (+ (s.off %s) %s) (- %s %s) (- (s.cap %s) %s))", a.S, a.S, lo, hi, lo, a.S, lo), Sort: "Slice", T: a.T}
 	case *SQuant:
+		if t, ok := env.elabAnchoredForall(x); ok {
+			return t
+		}
 		c := env.child()
 		var binders []string
 		for _, v := range x.Vars {
@@ -291,6 +294,141 @@ func (env *Env) elab(x SExpr) Term {
 	}
 	efail("unsupported expression %s", x)
 	return Term{}
+}
+
+// mentions reports whether expression e mentions identifier name.
+func mentions(e SExpr, name string) bool {
+	switch x := e.(type) {
+	case *SIdent:
+		return x.Name == name
+	case *SUnary:
+		return mentions(x.X, name)
+	case *SBinary:
+		return mentions(x.X, name) || mentions(x.Y, name)
+	case *SCall:
+		for _, a := range x.Args {
+			if mentions(a, name) {
+				return true
+			}
+		}
+	case *SSel:
+		return mentions(x.X, name)
+	case *SIndex:
+		return mentions(x.X, name) || mentions(x.I, name)
+	case *SSlice:
+		return mentions(x.X, name) || (x.Lo != nil && mentions(x.Lo, name)) || (x.Hi != nil && mentions(x.Hi, name))
+	case *SQuant:
+		return mentions(x.Body, name)
+	case *SOld:
+		return mentions(x.X, name)
+	}
+	return false
+}
+
+// findAnchor finds a sub-expression s[k] where k is exactly the quantified variable and s
+// does not mention it.
+func findAnchor(e SExpr, k string) SExpr {
+	switch x := e.(type) {
+	case *SIndex:
+		if id, ok := x.I.(*SIdent); ok && id.Name == k && !mentions(x.X, k) {
+			return x.X
+		}
+		if a := findAnchor(x.X, k); a != nil {
+			return a
+		}
+		return findAnchor(x.I, k)
+	case *SUnary:
+		return findAnchor(x.X, k)
+	case *SBinary:
+		if a := findAnchor(x.X, k); a != nil {
+			return a
+		}
+		return findAnchor(x.Y, k)
+	case *SCall:
+		for _, a := range x.Args {
+			if r := findAnchor(a, k); r != nil {
+				return r
+			}
+		}
+	case *SSel:
+		return findAnchor(x.X, k)
+	case *SOld:
+		return findAnchor(x.X, k)
+	case *SQuant:
+		for _, v := range x.Vars {
+			if v.Name == k {
+				return nil
+			}
+		}
+		return findAnchor(x.Body, k)
+	}
+	return nil
+}
+
+// elabAnchoredForall rewrites "forall k int :: P(s[k], ...)" over the absolute index
+// i = off(s) + k of the anchor slice s, so that the quantifier gets the E-matching
+// pattern (select A i). The substitution k := i - off(s) is a bijection on the integers,
+// so the formula is equivalent.
+func (env *Env) elabAnchoredForall(x *SQuant) (Term, bool) {
+	if !x.Forall || len(x.Vars) != 1 || len(x.Pats) > 0 || (x.Vars[0].Type != "int" && x.Vars[0].Type != "Int") {
+		return Term{}, false
+	}
+	k := x.Vars[0].Name
+	anchor := findAnchor(x.Body, k)
+	if anchor == nil {
+		return Term{}, false
+	}
+	// the anchor must be a slice
+	at, err := env.Elab(anchor)
+	if err != nil || at.Sort != "Slice" {
+		return Term{}, false
+	}
+	off := fmt.Sprintf("(s.off %s)", at.S)
+	c := env.child()
+	c.vars[k] = Term{S: fmt.Sprintf("(- q$%s %s)", k, off), Sort: "Int"}
+	b := c.elab(x.Body)
+	env.wantBool(b, x.Body)
+	body := strings.ReplaceAll(b.S, fmt.Sprintf("(+ %s (- q$%s %s))", off, k, off), "q$"+k)
+	// patterns: every (select (select H (s.arr anchor)) q$k) occurring in the body
+	var pats []string
+	seen := map[string]bool{}
+	needle := fmt.Sprintf(" (s.arr %s)) q$%s)", at.S, k)
+	for idx := 0; ; {
+		j := strings.Index(body[idx:], needle)
+		if j < 0 {
+			break
+		}
+		end := idx + j + len(needle)
+		// walk back to the matching "(select (select "
+		start := strings.LastIndex(body[:idx+j], "(select (select ")
+		if start >= 0 {
+			p := body[start:end]
+			if !seen[p] && balanced(p) {
+				seen[p] = true
+				pats = append(pats, ":pattern ("+p+")")
+			}
+		}
+		idx = end
+	}
+	if len(pats) == 0 {
+		return Term{}, false
+	}
+	return boolTerm(fmt.Sprintf("(forall ((q$%s Int)) (! %s %s))", k, body, strings.Join(pats, " "))), true
+}
+
+func balanced(s string) bool {
+	d := 0
+	for _, c := range s {
+		if c == '(' {
+			d++
+		} else if c == ')' {
+			d--
+			if d < 0 {
+				return false
+			}
+		}
+	}
+	return d == 0
 }
 
 func typeUnder[T types.Type](t types.Type) (T, bool) {
@@ -633,11 +771,11 @@ func (vc *FnVC) bitFun(op, a, b string) string {
 		vc.decl(name, fmt.Sprintf("(declare-fun %s (Int Int) Int)", name))
 		switch op {
 		case "and":
-			vc.decl(name+"$ax", "(assert (forall ((x Int) (y Int)) (! (=> (and (>= x 0) (>= y 0)) (and (>= (bitand x y) 0) (<= (bitand x y) x) (<= (bitand x y) y) (= (bitand x y) (bitand y x)))) :pattern ((bitand x y)))))")
+			vc.declAxiom(name+"$ax","(assert (forall ((x Int) (y Int)) (! (=> (and (>= x 0) (>= y 0)) (and (>= (bitand x y) 0) (<= (bitand x y) x) (<= (bitand x y) y) (= (bitand x y) (bitand y x)))) :pattern ((bitand x y)))))")
 		case "or":
-			vc.decl(name+"$ax", "(assert (forall ((x Int) (y Int)) (! (=> (and (>= x 0) (>= y 0)) (and (>= (bitor x y) x) (>= (bitor x y) y) (<= (bitor x y) (+ x y)) (= (bitor x y) (bitor y x)))) :pattern ((bitor x y)))))")
+			vc.declAxiom(name+"$ax","(assert (forall ((x Int) (y Int)) (! (=> (and (>= x 0) (>= y 0)) (and (>= (bitor x y) x) (>= (bitor x y) y) (<= (bitor x y) (+ x y)) (= (bitor x y) (bitor y x)))) :pattern ((bitor x y)))))")
 		case "xor":
-			vc.decl(name+"$ax", "(assert (forall ((x Int) (y Int)) (! (=> (and (>= x 0) (>= y 0)) (and (>= (bitxor x y) 0) (<= (bitxor x y) (+ x y)) (= (bitxor x y) (bitxor y x)) (= (= (bitxor x y) 0) (= x y)))) :pattern ((bitxor x y)))))")
+			vc.declAxiom(name+"$ax","(assert (forall ((x Int) (y Int)) (! (=> (and (>= x 0) (>= y 0)) (and (>= (bitxor x y) 0) (<= (bitxor x y) (+ x y)) (= (bitxor x y) (bitxor y x)) (= (= (bitxor x y) 0) (= x y)))) :pattern ((bitxor x y)))))")
 		}
 	}
 	return fmt.Sprintf("(%s %s %s)", name, a, b)
@@ -722,6 +860,13 @@ func (env *Env) elabCall(x *SCall) Term {
 			efail("disjoint wants slices")
 		}
 		return boolTerm(fmt.Sprintf("(or (not (= (s.arr %s) (s.arr %s))) (<= (+ (s.off %s) (s.cap %s)) (s.off %s)) (<= (+ (s.off %s) (s.cap %s)) (s.off %s)))", a.S, b.S, a.S, a.S, b.S, b.S, b.S, a.S))
+	case "noalias":
+		// different backing arrays
+		a, b := env.elab(x.Args[0]), env.elab(x.Args[1])
+		if a.Sort != "Slice" || b.Sort != "Slice" {
+			efail("noalias wants slices")
+		}
+		return boolTerm(fmt.Sprintf("(not (= (s.arr %s) (s.arr %s)))", a.S, b.S))
 	case "sameslice":
 		a, b := env.elab(x.Args[0]), env.elab(x.Args[1])
 		return boolTerm(fmt.Sprintf("(= %s %s)", a.S, b.S))
@@ -799,7 +944,7 @@ func (env *Env) elabCall(x *SCall) Term {
 
 func (vc *FnVC) errorsIs(e, target string) string {
 	vc.decl("errorsIs", "(declare-fun errorsIs (Int Int) Bool)")
-	vc.decl("errorsIs$ax", "(assert (forall ((e Int) (t Int)) (! (and (=> (= e t) (errorsIs e t)) (=> (= e 0) (= (errorsIs e t) (= t 0)))) :pattern ((errorsIs e t)))))")
+	vc.declAxiom("errorsIs$ax","(assert (forall ((e Int) (t Int)) (! (and (=> (= e t) (errorsIs e t)) (=> (= e 0) (= (errorsIs e t) (= t 0)))) :pattern ((errorsIs e t)))))")
 	return fmt.Sprintf("(errorsIs %s %s)", e, target)
 }
 
@@ -906,6 +1051,12 @@ func (vc *FnVC) definePure(pf *PureFunc) *pureDef {
 	}
 	if body.Sort != def.resultSort {
 		efail("pure func %s: body has sort %s, declared %s", pf.Name, body.Sort, def.resultSort)
+	}
+	if vc.quantPures == nil {
+		vc.quantPures = map[string]bool{}
+	}
+	if vc.isQuantified(body.S) {
+		vc.quantPures[pf.Name] = true
 	}
 	for i, c := range def.heapParams {
 		binders = append(binders, fmt.Sprintf("(hp$%s %s)", c, def.sortsOf[i]))
